@@ -512,6 +512,14 @@ def run_cmptotal(P, rep, rule="R-CMPTOTAL"):
             for cf in cmp_fns:
                 verdicts += comparator_partial_sites(P, cf, 3, set())
             if _is_array_filter(fn):
+                conv_ = []
+                for cf in cmp_fns:
+                    conv_ += _pipeline_hits(P, cf, 3, set(), lambda P_, f_, c_: c_["id"].rsplit("::", 1)[1] in ("to_float", "to_integer", "to_bool", "type_name", "total_cmp")
+                                            and ("ScalarCow" in c_["name"] or c_.get("trait", "").endswith("ValueView") or "f64" in c_["name"]))
+                if conv_:
+                    rep.viol(rule, site + " kind-dispatch", where,
+                             "the sort comparator converts or classifies the values itself (%s) instead of ordering them with the value model (ValueViewCmp): "
+                             "`sort` and `<` can then disagree (signed zero, integers above 2^53)" % sorted(set(conv_))[0])
                 # nil goes last: somewhere in the sort pipeline (key extraction or comparator) nil-ness is asked of the values
                 cmp_values = any(_pipeline_asks(P, cf, 3, set(), _IS_VALUE_CMP) for cf in cmp_fns)
                 cmp_nil = any(_pipeline_asks(P, cf, 3, set(), _IS_NIL) for cf in cmp_fns)
@@ -539,6 +547,30 @@ def _IS_VALUE_CMP(P, fn, f):
         return False
     st = P.tstr(fn.crate, f["self_ty"]) if "self_ty" in f else ""
     return "ValueViewCmp" in st or "ValueViewCmp" in f["name"] or "values::Value" in st or "ValueView" in st
+
+
+def _pipeline_hits(P, fn, depth, seen, pred):
+    out = []
+    if fn.id in seen or depth < 0:
+        return out
+    seen.add(fn.id)
+    for bi, t in P.calls(fn):
+        f = t.get("f")
+        if not f:
+            continue
+        if pred(P, fn, f):
+            out.append(f["name"])
+        for tg in P.callee_targets(t):
+            g = P.fns.get(tg)
+            if g is not None and g.crate in LIB_CRATES and (g.kind == "closure" or not g.impl):
+                out += _pipeline_hits(P, g, depth - 1, seen, pred)
+        for a in t["args"]:
+            ol = op_local(a)
+            if ol:
+                tyj = P.local_tyj(fn, ol[0])
+                if tyj["k"] == "closure" and tyj["id"] in P.fns:
+                    out += _pipeline_hits(P, P.fns[tyj["id"]], depth - 1, seen, pred)
+    return out
 
 
 def _pipeline_asks(P, fn, depth, seen, pred):
@@ -919,3 +951,157 @@ def run_no_identity(P, rep, rule="R-NOIDENT"):
     else:
         rep.ok(rule, "comparison bodies", "-", "%d comparison bodies (core functions, PartialEq/PartialOrd impls, their closures): none looks at addresses" % n)
     rep.count(rule + ".bodies", n)
+
+
+# ---------------------------------------------------------------------------------------
+# R-UNIQKEPT / R-ONESIDED / comparator purity
+
+def run_uniq_kept(P, rep, rule="R-UNIQKEPT"):
+    """uniq keeps an element iff no *kept* element equals it: the collection scanned with `any` is the very vector the
+    survivors are pushed to (Liquid equality is not transitive, so scanning the input prefix instead gives another result)."""
+    from origins import backward_slice
+    from mirutil import copy_root
+    fn = P.fn_by_key("<liquid_lib::stdlib::filters::array::UniqFilter as liquid_core::parser::filter::Filter>::evaluate")
+    pushes = [t for bi, t in P.calls(fn) if t.get("f") and t["f"]["name"].endswith("Vec::<T, A>::push")]
+    anys = [t for bi, t in P.calls(fn) if t.get("f") and t["f"]["id"].rsplit("::", 1)[1] in ("any", "all", "position", "find", "contains")]
+    site = "uniq scans the kept vector"
+    if not pushes or not anys:
+        rep.viol(rule, site, P.where(fn), "uniq is not written as `for x { if !kept.iter().any(|k| k == x) { kept.push(x) } }` (push x%d, scans x%d): "
+                 "it cannot be comparing against the elements kept so far" % (len(pushes), len(anys)))
+        return
+
+    def root_vec(op):
+        ol = op_local(op)
+        if not ol:
+            return set()
+        locs, _ = backward_slice(fn, ol[0])
+        return {l for l in locs | {ol[0]} if P.local_ty(fn, l).startswith("alloc::vec::Vec<")}
+    kept = set()
+    for t in pushes:
+        kept |= root_vec(t["args"][0])
+    ok = any(root_vec(t["args"][0]) & kept for t in anys)
+    if ok:
+        rep.ok(rule, site, P.where(fn, anys[0]["line"]), "the vector scanned for an equal element is the one survivors are pushed to")
+    else:
+        rep.viol(rule, site, P.where(fn, anys[0]["line"]), "the scan for an equal element does not run over the vector of kept elements")
+
+
+def run_one_sided(P, rep, rule="R-ONESIDED"):
+    """value_eq / value_cmp: no result is decided after asking only ONE operand whether it is an array / an object — a return
+    reachable from the Some-edge of `lhs.as_object()` must also have passed the Some-edge of `rhs.as_object()` (and vice versa);
+    otherwise `a == b` and `b == a` can differ for an object/array against a non-collection."""
+    from r_pair import return_blocks
+    for nm in ("value_eq", "value_cmp"):
+        fn = P.fn_by_key(CORE_FNS[nm])
+        so = SelfOrigins(P, fn, seed={1: (1,), 2: (2,)})
+        probes = {}
+        for bi, t in P.calls(fn):
+            f = t.get("f")
+            if f and f.get("trait", "").endswith("ValueView") and f["id"].rsplit("::", 1)[1] in ("as_array", "as_object") and t["args"]:
+                ol = op_local(t["args"][0])
+                o = so.place_origin([ol[0], ol[1]]) if ol else None
+                if o and o[0] in (1, 2):
+                    probes.setdefault(f["id"].rsplit("::", 1)[1], {})[o[0]] = (bi, t)
+        rets = set(return_blocks(fn))
+        for kind, sides in sorted(probes.items()):
+            site = "%s %s" % (nm, kind)
+            if set(sides) != {1, 2}:
+                rep.viol(rule, site, P.where(fn), "only one operand is asked %s()" % kind)
+                continue
+            some = {}
+            for side, (bi, t) in sides.items():
+                d = t["d"][0]
+                edge = None
+                for b2, blk in enumerate(fn.blocks):
+                    tt = blk["t"]
+                    if tt["k"] != "switch":
+                        continue
+                    ol = op_local(tt["o"])
+                    for st in blk["s"]:
+                        if st[0] == "a" and ol and st[1][0] == ol[0] and st[2]["k"] == "discr":
+                            pl = st[2]["p"]
+                            base_ok = pl[0] == d and not any(p_[0] == "f" for p_ in pl[1])
+                            if not base_ok and pl[0] in _tuple_fields(fn):
+                                fs = [p_[1] for p_ in pl[1] if p_[0] == "f"]
+                                tf = _tuple_fields(fn)[pl[0]]
+                                base_ok = bool(fs) and fs[0] < len(tf) and tf[fs[0]] == d
+                            if base_ok:
+                                edge = (b2, [tb for v, tb in tt["t"] if v == 1] or [tt["else"]])
+                some[side] = edge
+            if None in some.values():
+                rep.ok(rule, site, P.where(fn), "probe results are not matched by discriminant here: not decided")
+                continue
+            bad = None
+            for side in (1, 2):
+                other = 3 - side
+                sw_a, some_a = some[side]
+                sw_b, some_b = some[other]
+                if sw_b not in P.reach(fn, some_a):
+                    continue  # the other operand's test is not nested under this one's Some edge
+                ta, tb_ = fn.blocks[sw_a]["t"], fn.blocks[sw_b]["t"]
+                none_a = [x for v, x in ta["t"] if v == 0] or [ta["else"]]
+                none_b = [x for v, x in tb_["t"] if v == 0] or [tb_["else"]]
+                # blocks that run only when THIS operand is a collection and the OTHER is not
+                exclusive = P.reach(fn, none_b) - P.reach(fn, none_a)
+                decided = sorted(b for b in exclusive if any(st[0] == "a" and st[1][0] == 0 and not st[1][1] for st in fn.blocks[b]["s"]))
+                if decided:
+                    bad = (side, decided[0])
+            if bad:
+                rep.viol(rule, site, P.where(fn), "a result is decided after asking only the %s operand whether it is %s: equality/ordering of a collection "
+                         "against a non-collection depends on the argument order" % ("left" if bad[0] == 1 else "right", kind.replace("as_", "an ")))
+            else:
+                rep.ok(rule, site, P.where(fn), "no result is decided on one operand's %s() alone" % kind)
+
+
+def _tuple_fields(fn, _cache={}):
+    if fn.id in _cache:
+        return _cache[fn.id]
+    out = {}
+    for b in fn.blocks:
+        for st in b["s"]:
+            if st[0] == "a" and st[2]["k"] == "agg" and st[2].get("ak") == "tuple" and not st[1][1]:
+                out[st[1][0]] = [op_local(o)[0] if op_local(o) else None for o in st[2]["ops"]]
+    _cache[fn.id] = out
+    return out
+
+
+def _tuple_sources(fn, _cache={}):
+    if fn.id in _cache:
+        return _cache[fn.id]
+    out = {}
+    for b in fn.blocks:
+        for st in b["s"]:
+            if st[0] == "a" and st[2]["k"] == "agg" and st[2].get("ak") == "tuple" and not st[1][1]:
+                out[st[1][0]] = {op_local(o)[0] for o in st[2]["ops"] if op_local(o)}
+    _cache[fn.id] = out
+    return out
+
+
+def run_sort_purity(P, rep, rule="R-SORTPURE"):
+    """The comparators of the array filters' sorts order liquid values through the value model only: no to_float / to_integer /
+    type_name / total_cmp inside the comparator pipeline (otherwise `sort` and `<` can disagree)."""
+    n = 0
+    for fn in sorted(P.fns.values(), key=lambda f: f.id):
+        if fn.crate not in LIB_CRATES or "::test" in fn.id or not _is_array_filter(fn):
+            continue
+        k = 0
+        for bi, t in P.calls(fn):
+            f = t.get("f")
+            if not f or f["id"].rsplit("::", 1)[1] not in ("sort_by", "sort_unstable_by", "sort_by_key", "sort_by_cached_key"):
+                continue
+            n += 1
+            site = "%s %s#%d" % (fn.key, f["id"].rsplit("::", 1)[1], k)
+            k += 1
+            hits = []
+            for a in t["args"][1:]:
+                ol = op_local(a)
+                if ol:
+                    tyj = P.local_tyj(fn, ol[0])
+                    if tyj["k"] == "closure" and tyj["id"] in P.fns:
+                        hits += _pipeline_hits(P, P.fns[tyj["id"]], 3, set(), lambda P_, f_, c_: c_["id"].rsplit("::", 1)[1] in ("to_float", "to_integer", "to_bool", "type_name", "total_cmp")
+                                               and ("ScalarCow" in c_["name"] or c_.get("trait", "").endswith("ValueView") or "f64" in c_["name"]))
+            if hits:
+                rep.viol(rule, site, P.where(fn, t["line"]), "the comparator converts/classifies values itself (%s): sort order and `<` can disagree" % sorted(set(hits))[0])
+            else:
+                rep.ok(rule, site, P.where(fn, t["line"]), "comparator orders through the value model only")
+    rep.count(rule + ".sorts", n)
